@@ -23,6 +23,18 @@ type wmsg struct {
 	rawOpts               []byte // if non-nil, used instead of opts
 }
 
+// setOpt replaces the payload of option code (first occurrence) or appends the option
+func (m *wmsg) setOpt(code byte, data []byte) {
+	for i := range m.opts {
+		if m.opts[i].code == code {
+			m.opts = append([]wopt{}, m.opts...)
+			m.opts[i] = wopt{code, data}
+			return
+		}
+	}
+	m.opts = append(m.opts, wopt{code, data})
+}
+
 func (m wmsg) bytes() []byte {
 	b := make([]byte, 240)
 	b[0], b[1], b[2], b[3] = m.op, m.htype, m.hlen, m.hops
